@@ -689,6 +689,56 @@ def chains(res, rng, groups, viol):
     groups.append(("bstadapted1d", "list Q * Z * list (Q * Q * Q) * Q * Q * list (Q * Z)", "chk_ba1d", g_ba))
 
 
+# ----------------------------------------------------------------------------- probability-step grid (oracle only)
+def chain_probability_step(res, rng, viol):
+    """CTMCGridProbabilityStep (cell boundaries = equal-probability points found by a root finder, not arithmetic
+    mid-points): every 1-d sampler must realise rate/intensity of the chain built on that grid (tolerance 1e-6: brentq)."""
+    from c02_stepmodel import C02StepMeasure, C02StepModel
+    from rpylib.grid.spatial import CTMCGridProbabilityStep
+    from rpylib.process.markovchain.markovchain import MarkovChainProcess
+    from rpylib.distribution.samplingfactory import create_q_vector
+    from rpylib.distribution.sampling import SamplingMethod as SM
+    from rpylib.distribution.variate import huffmantree as H
+    pieces_list = [[(-4, -2, Fr(1, 4)), (-2, -1, 1), (-1, -Fr(1, 8), 2), (Fr(1, 8), 1, 4), (1, 2, 1), (2, 6, Fr(1, 8))],
+                   [(-3, -1, Fr(1, 2)), (-1, -Fr(1, 8), 1), (Fr(1, 8), Fr(1, 2), 8), (Fr(1, 2), 5, Fr(1, 4))]]
+    for pieces in pieces_list:
+        for method in (SM.BINARYSEARCHTREEADAPTED1D, SM.INVERSION, SM.BINARYSEARCHTREE, SM.HUFFMANNTREE, SM.ALIAS):
+            name = method.name
+            ctx = dict(sampler=name, grid="CTMCGridProbabilityStep", pieces=[[str(x) for x in pc] for pc in pieces])
+            try:
+                model = C02StepModel(C02StepMeasure(pieces))
+                grid = CTMCGridProbabilityStep(h=0.25, model=model, minimum_probability_step=0.2)
+                proc = MarkovChainProcess(model, method, grid)
+                s = proc.sampling
+                q = create_q_vector(proc.model.levy_triplet.nu, grid) / proc.intensity_of_jumps
+            except Exception as e:  # noqa
+                viol(f"factory raises {type(e).__name__} on a probability-step grid for SamplingMethod.{name}", error=str(e)[:200], **ctx)
+                continue
+            o = grid.origin_coordinate.value
+            if name == "ALIAS":
+                one = lambda u: int(s.states([s._draw_with_u(u)])[0])
+                hints = _alias_hints(s)
+            elif name == "HUFFMANNTREE":
+                one = lambda u: int(s.states(H.sample_with_u(u, s.head)[0]))
+                hints = [float(v) for v in _huff_breaks(s.head)]
+            else:
+                one = lambda u: int(s.sample_with_u(u))
+                hints = [float(v) for v in getattr(s, "bst", [])]
+            if name == "INVERSION":
+                one(ulp_down(1.0) - 1e-9)
+                hints = [float(c) for c in s._cumulative_probabilities]
+            lengths, _ = integrate_step_function(one, hints=hints, n0=512, top=1.0 - 1e-9)
+            res.count(("law-pstep", name, tuple(map(tuple, pieces))), kind=f"oracle-law-probability-step-{name}")
+            for k, pk in enumerate(q):
+                if k == o:
+                    continue
+                got = float(lengths.get(k - o, Fr(0)))
+                if abs(got - float(pk)) > 1e-6:
+                    viol(f"{name} on a probability-step grid: total length of the uniforms sent to a state differs from rate/intensity",
+                         state=k - o, length=got, target=float(pk), **ctx)
+                    break
+
+
 # ----------------------------------------------------------------------------- 2-d chain (oracle only)
 def build_chain_2d(h, half, masses1, masses2, copula_name, method, right=None):
     """half points on the left of the origin and `right` (default: half) on the right, on both axes"""
@@ -957,6 +1007,7 @@ def correspond(res):
 
     direct_samplers(res, rng, groups, viol)
     chains(res, rng, groups, viol)
+    chain_probability_step(res, rng, viol)
     chain_2d(res, rng, groups, viol)
 
     # ---------- Coq side: the models must compute exactly what the implementation returned ----------
